@@ -53,4 +53,124 @@ theorem seg2d_eq_spec (tol : Rat) (B : Int) (hT : TolSmall tol B)
 example : seg2d (1 / 100000000) (P2.ofInt (-1000) 0) (P2.ofInt 1000 0) (P2.ofInt 999 0) (P2.ofInt 999 1000)
     = .point (P2.ofInt 999 0) := by decide +kernel
 
+/-- 3-D: on integer coordinates in `[-B, B]` with `8·B²·tol < 1`, the model of `segments_3d` (with the
+    repairs R1, R2 of Model.lean) returns the exact-arithmetic intersection: same kind, same points
+    (a segment as an unordered pair: the code returns the two middle points in `argsort` order).
+    Branch selection is exact (non-parallel ⇔ some 2×2 minor ≠ 0 ⇔ the chosen minor is ≥ tol;
+    colinear ⇔ ds × d1 = 0), the consistency test in the third coordinate is exact, and the
+    touching test is exact — all through the gap lemmas of Lemmas §1. -/
+theorem seg3d_eq_spec (tol : Rat) (B : Int) (hT : TolSmall tol B)
+    (ax ay az bx by' bz cx cy cz dx dy dz : Int)
+    (hax : InBox B ax) (hay : InBox B ay) (haz : InBox B az)
+    (hbx : InBox B bx) (hby : InBox B by') (hbz : InBox B bz)
+    (hcx : InBox B cx) (hcy : InBox B cy) (hcz : InBox B cz)
+    (hdx : InBox B dx) (hdy : InBox B dy) (hdz : InBox B dz)
+    (nd1 : bx ≠ ax ∨ by' ≠ ay ∨ bz ≠ az) (nd2 : dx ≠ cx ∨ dy ≠ cy ∨ dz ≠ cz) :
+    Res.same (seg3d tol (P3.ofInt ax ay az) (P3.ofInt bx by' bz) (P3.ofInt cx cy cz) (P3.ofInt dx dy dz))
+      (segInter3 (P3.ofInt ax ay az) (P3.ofInt bx by' bz) (P3.ofInt cx cy cz) (P3.ofInt dx dy dz)) := by
+  have hB : (1:Rat) ≤ B := by exact_mod_cast hT.one_le
+  have hK1 : (1:Rat) ≤ 8 * B * B := by nlinarith
+  have htol1 : tol < 1 := by have := hT.small; have := hT.pos; nlinarith
+  have h8 : (2 * ((2 * B) * (2 * B)) : Int) = 8 * B * B := by ring
+  have bxy := abs_det_le (box_diff hax hbx) (box_diff hay hby) (box_diff hcx hdx) (box_diff hcy hdy)
+  have bxz := abs_det_le (box_diff hax hbx) (box_diff haz hbz) (box_diff hcx hdx) (box_diff hcz hdz)
+  have byz := abs_det_le (box_diff hay hby) (box_diff haz hbz) (box_diff hcy hdy) (box_diff hcz hdz)
+  rw [h8] at bxy bxz byz
+  by_cases hnp : (bx - ax) * (dy - cy) - (by' - ay) * (dx - cx) ≠ 0 ∨
+      (bx - ax) * (dz - cz) - (bz - az) * (dx - cx) ≠ 0 ∨ (by' - ay) * (dz - cz) - (bz - az) * (dy - cy) ≠ 0
+  · apply Res.same_of_eq
+    apply seg3d_cross_core tol _ _ _ _ (bx - ax) (by' - ay) (bz - az) (dx - cx) (dy - cy) (dz - cz)
+      (cx - ax) (cy - ay) (cz - az) (8 * B * B)
+    · simp only [P3.ofInt]; push_cast; ring
+    · simp only [P3.ofInt]; push_cast; ring
+    · simp only [P3.ofInt]; push_cast; ring
+    · simp only [P3.ofInt]; push_cast; ring
+    · simp only [P3.ofInt]; push_cast; ring
+    · simp only [P3.ofInt]; push_cast; ring
+    · simp only [P3.ofInt]; push_cast; ring
+    · simp only [P3.ofInt]; push_cast; ring
+    · simp only [P3.ofInt]; push_cast; ring
+    · exact hT.pos
+    · exact hT.small
+    · exact hK1
+    · exact_mod_cast bxy
+    · exact_mod_cast bxz
+    · exact_mod_cast byz
+    · exact hnp
+  · have h1 : (bx - ax) * (dy - cy) - (by' - ay) * (dx - cx) = 0 := by
+      by_contra h; exact hnp (Or.inl h)
+    have h2 : (bx - ax) * (dz - cz) - (bz - az) * (dx - cx) = 0 := by
+      by_contra h; exact hnp (Or.inr (Or.inl h))
+    have h3 : (by' - ay) * (dz - cz) - (bz - az) * (dy - cy) = 0 := by
+      by_contra h; exact hnp (Or.inr (Or.inr h))
+    have q1 : ((bx:Rat) - ax) * (dy - cy) - (by' - ay) * (dx - cx) = 0 := by exact_mod_cast h1
+    have q2 : ((bx:Rat) - ax) * (dz - cz) - (bz - az) * (dx - cx) = 0 := by exact_mod_cast h2
+    have q3 : ((by':Rat) - ay) * (dz - cz) - (bz - az) * (dy - cy) = 0 := by exact_mod_cast h3
+    rw [seg3d_eq_par tol _ _ _ _ hT.pos (by simp only [minor, P3.ofInt, Dims.i, Dims.j, P3.get]; exact q1)
+      (by simp only [minor, P3.ofInt, Dims.i, Dims.j, P3.get]; exact q2)
+      (by simp only [minor, P3.ofInt, Dims.i, Dims.j, P3.get]; exact q3)]
+    apply par3d_same_core tol _ _ _ _ (le_of_lt hT.pos)
+    · intro k; cases k <;> simp only [P3.get, P3.ofInt]
+      · exact rabs_gt_iff_of_int _ (bx - ax) (by push_cast; ring) tol (le_of_lt hT.pos) htol1
+      · exact rabs_gt_iff_of_int _ (by' - ay) (by push_cast; ring) tol (le_of_lt hT.pos) htol1
+      · exact rabs_gt_iff_of_int _ (bz - az) (by push_cast; ring) tol (le_of_lt hT.pos) htol1
+    · intro k; cases k <;> simp only [P3.get, P3.ofInt]
+      · exact rabs_gt_iff_of_int _ (dx - cx) (by push_cast; ring) tol (le_of_lt hT.pos) htol1
+      · exact rabs_gt_iff_of_int _ (dy - cy) (by push_cast; ring) tol (le_of_lt hT.pos) htol1
+      · exact rabs_gt_iff_of_int _ (dz - cz) (by push_cast; ring) tol (le_of_lt hT.pos) htol1
+    · exact rabs_gt_iff_of_int _ ((cy - ay) * (bz - az) - (cz - az) * (by' - ay)) (by simp only [P3.ofInt]; push_cast; ring) tol (le_of_lt hT.pos) htol1
+    · exact rabs_gt_iff_of_int _ ((cz - az) * (bx - ax) - (cx - ax) * (bz - az)) (by simp only [P3.ofInt]; push_cast; ring) tol (le_of_lt hT.pos) htol1
+    · exact rabs_gt_iff_of_int _ ((cx - ax) * (by' - ay) - (cy - ay) * (bx - ax)) (by simp only [P3.ofInt]; push_cast; ring) tol (le_of_lt hT.pos) htol1
+    · intro k i j
+      have : ∃ m : Int, col4 ((P3.ofInt ax ay az).get k) ((P3.ofInt bx by' bz).get k) ((P3.ofInt cx cy cz).get k)
+          ((P3.ofInt dx dy dz).get k) i - col4 ((P3.ofInt ax ay az).get k) ((P3.ofInt bx by' bz).get k)
+          ((P3.ofInt cx cy cz).get k) ((P3.ofInt dx dy dz).get k) j = m := by
+        cases k <;> simp only [P3.get, P3.ofInt]
+        · exact col4_diff_int _ _ _ _ (bx - ax) (cx - ax) (dx - cx) (by push_cast; ring) (by push_cast; ring) (by push_cast; ring) i j
+        · exact col4_diff_int _ _ _ _ (by' - ay) (cy - ay) (dy - cy) (by push_cast; ring) (by push_cast; ring) (by push_cast; ring) i j
+        · exact col4_diff_int _ _ _ _ (bz - az) (cz - az) (dz - cz) (by push_cast; ring) (by push_cast; ring) (by push_cast; ring) i j
+      obtain ⟨m, hm⟩ := this
+      rw [rabs_lt_iff_of_int _ m hm tol hT.pos (le_of_lt htol1), sub_eq_zero]
+    · simp only [P3.ofInt]; exact q1
+    · simp only [P3.ofInt]; exact q2
+    · simp only [P3.ofInt]; exact q3
+    · simp only [P3.ofInt]
+      rcases nd1 with h | h | h
+      · left; exact_mod_cast sub_ne_zero.mpr h
+      · right; left; exact_mod_cast sub_ne_zero.mpr h
+      · right; right; exact_mod_cast sub_ne_zero.mpr h
+    · simp only [P3.ofInt]
+      rcases nd2 with h | h | h
+      · left; exact_mod_cast sub_ne_zero.mpr h
+      · right; left; exact_mod_cast sub_ne_zero.mpr h
+      · right; right; exact_mod_cast sub_ne_zero.mpr h
+
+/-- non-vacuity (3-D): a crossing through a point with fractional coordinates, a colinear overlap and a
+    colinear end-to-end pair -/
+example : seg3d (1 / 100000000) (P3.ofInt 0 0 0) (P3.ofInt 2 2 1) (P3.ofInt 0 2 0) (P3.ofInt 2 0 1)
+    = .point ⟨1, 1, 1 / 2⟩ := by decide +kernel
+example : seg3d (1 / 100000000) (P3.ofInt 0 0 0) (P3.ofInt 3 3 3) (P3.ofInt 2 2 2) (P3.ofInt 1 1 1)
+    = .segment (P3.ofInt 1 1 1) (P3.ofInt 2 2 2) := by decide +kernel
+example : seg3d (1 / 100000000) (P3.ofInt 0 0 0) (P3.ofInt 1 1 1) (P3.ofInt 1 1 1) (P3.ofInt 2 2 2)
+    = .point (P3.ofInt 1 1 1) := by decide +kernel
+
+/-! ### The two findings: `segments_3d` as it is coded (`seg3dCode`) does NOT satisfy the property -/
+
+/-- F-A: a vertical segment crossing a diagonal horizontal one in the origin.  The code picks the
+    coordinate pair (x, y) because both have an extent in one of the lines; the (x, y)-minor of the
+    directions (0,0,2), (2,2,0) vanishes, the pair is treated as parallel and `None` is returned. -/
+theorem seg3dCode_misses_crossing :
+    seg3dCode (1 / 100000000) (P3.ofInt 0 0 (-1)) (P3.ofInt 0 0 1) (P3.ofInt (-1) (-1) 0) (P3.ofInt 1 1 0) = .none ∧
+    segInter3 (P3.ofInt 0 0 (-1)) (P3.ofInt 0 0 1) (P3.ofInt (-1) (-1) 0) (P3.ofInt 1 1 0) = .point (P3.ofInt 0 0 0) ∧
+    seg3d (1 / 100000000) (P3.ofInt 0 0 (-1)) (P3.ofInt 0 0 1) (P3.ofInt (-1) (-1) 0) (P3.ofInt 1 1 0) = .point (P3.ofInt 0 0 0) := by
+  decide +kernel
+
+/-- F-B: colinear segments that share exactly one end point: the code returns that point twice
+    (a two-column array, i.e. the kind "segment"), exact arithmetic gives one point. -/
+theorem seg3dCode_doubles_touching_point :
+    seg3dCode (1 / 100000000) (P3.ofInt 0 0 0) (P3.ofInt 1 1 1) (P3.ofInt 1 1 1) (P3.ofInt 2 2 2)
+      = .segment (P3.ofInt 1 1 1) (P3.ofInt 1 1 1) ∧
+    segInter3 (P3.ofInt 0 0 0) (P3.ofInt 1 1 1) (P3.ofInt 1 1 1) (P3.ofInt 2 2 2) = .point (P3.ofInt 1 1 1) := by
+  decide +kernel
+
 end PorepyVerif.C28
